@@ -46,7 +46,8 @@ def body(run):
                        "quick: three policies (rotating with the seed) x 2 modes x 5 classes + None, thorough: all 50 + None")
     run.assumptions += [
         "'other key' = the right data signed with a third key pair while the response still carries the server certificate",
-        "'other data' = one of: certificate without nonce, server's own certificate + nonce, certificate + fresh nonce, nonce + certificate",
+        "'other data' = one of: certificate without nonce, server's own certificate + nonce, certificate + fresh nonce, nonce + certificate; "
+        "plus, for every (policy, mode), two overlapping CreateSession calls where the first is answered with a signature over the second request's nonce",
         "a response that carries a different certificate together with a matching signature is not explored (outside the statement)",
     ]
 
